@@ -23,6 +23,7 @@ type Session struct {
 	storage    *storage.Storage
 	config     *config.Config
 	mailFrom   string
+	mailSeen   bool // MAIL accepted in this transaction; mailFrom is empty for the null reverse-path <>
 	recipients []string
 	helo       string
 }
@@ -153,7 +154,7 @@ func (s *Session) handleMAIL(args string) error {
 		return s.sendResponse(503, "Please send LHLO first")
 	}
 
-	if s.mailFrom != "" {
+	if s.mailSeen {
 		return s.sendResponse(503, "Sender already specified")
 	}
 
@@ -164,12 +165,13 @@ func (s *Session) handleMAIL(args string) error {
 	}
 
 	s.mailFrom = from
+	s.mailSeen = true
 	return s.sendResponse(250, "2.1.0 Sender OK")
 }
 
 // handleRCPT handles the RCPT TO command
 func (s *Session) handleRCPT(args string) error {
-	if s.mailFrom == "" {
+	if !s.mailSeen {
 		return s.sendResponse(503, "Please send MAIL FROM first")
 	}
 
@@ -221,7 +223,7 @@ func (s *Session) handleRCPT(args string) error {
 
 // handleDATA handles the DATA command
 func (s *Session) handleDATA() error {
-	if s.mailFrom == "" {
+	if !s.mailSeen {
 		return s.sendResponse(503, "Please send MAIL FROM first")
 	}
 
@@ -290,6 +292,7 @@ func (s *Session) handleDATA() error {
 
 	// Reset session state
 	s.mailFrom = ""
+	s.mailSeen = false
 	s.recipients = make([]string, 0)
 
 	return nil
@@ -305,6 +308,7 @@ func (s *Session) rejectMessage(code int, status string, reason error) error {
 
 	// Reset session state
 	s.mailFrom = ""
+	s.mailSeen = false
 	s.recipients = make([]string, 0)
 
 	return nil
@@ -313,6 +317,7 @@ func (s *Session) rejectMessage(code int, status string, reason error) error {
 // handleRSET handles the RSET command
 func (s *Session) handleRSET() error {
 	s.mailFrom = ""
+	s.mailSeen = false
 	s.recipients = make([]string, 0)
 	return s.sendResponse(250, "Reset state")
 }
